@@ -1,12 +1,12 @@
 (* Extraction of the C04 models for the correspondence check. ExtrOcamlBasic only. *)
 From V.lib Require Import Base.
-From V.c04 Require Import C04Model C04AsmModel C04AllocModel C04MfraModel C04TreeModel C04XrefModel C04InfoModel.
+From V.c04 Require Import C04Model C04AsmModel C04AllocModel C04MfraModel C04TreeModel C04TreeXModel C04XrefModel C04InfoModel.
 Require Import ExtrOcamlBasic.
 Separate Extraction
   rstate rop rval rstep rnew rpos rerr
   std_leaves box_r box_sr tree tsize bout ist sst ipos sr
   topshape trafshape sidxshape moovshape opts fstate assemble encode_file info_file
-  xshape assemble_x tbl_leaves
+  xshape assemble_x tbl_leaves tblx_leaves
   obs_segment f_frag f_init f_mdat f_sidxs f_mfra f_children f_segs
   xtraf sbgpc sgpdc sencc entryk moof_senc_pass_x picked_senc se_unparsed group_lookup_gen
   ibox state_of_box info_lines get_info_level senc_parsed_state se_flags se_count se_raw
